@@ -333,6 +333,35 @@ pub fn run(seed: u64) -> RunReport {
             }
         }
 
+        // The open request fetched once more from the proxy: the same
+        // request (same nonce), signed anew - a valid message of the
+        // associated proxy that the signer has nevertheless answered.
+        step += 1;
+        if let Ok(again) = rt.ca_manager().ta_proxy_signer_get_request(&rt) {
+            let again: TrustAnchorSignedRequest = again.into();
+            let before = ta_digest(&rt);
+            let n0 = exchanges(&rt);
+            let res = guarded(|| {
+                rt.ca_manager().verif_ta_signer_process_request(
+                    again, &ADMIN, &rt
+                )
+            });
+            let n1 = exchanges(&rt);
+            cases.insert("signer.refetched_request".into());
+            log.push(format!(
+                "round {round}: request fetched again -> {} (exchanges {n0} -> {n1})",
+                matches!(res, Guarded::Ok(Ok(_)))
+            ));
+            if n1 != n0 || ta_digest(&rt) != before {
+                fail!(
+                    "request_answered_twice",
+                    "round {round}: the signer processed a second, newly \
+                     signed copy of the request it had answered (same \
+                     nonce): exchanges {n0} -> {n1}"
+                );
+            }
+        }
+
         //--- Proxy side: responses it must not accept.
         let proxy_refuses = |what: &str, resp: TrustAnchorSignedResponse,
                              violations: &mut Vec<Violation>, step: usize| {
